@@ -363,7 +363,9 @@ func (w *world) hostRules(pd parsedDump, fail func(rule, format string, args ...
 			}
 		}
 		if length < 0 {
-			fail("host-slice-length", "slice wrapper without a numeric length")
+			// 'length' not listed among the own keys (judged by the ownKeys≡descriptors invariant): the indices must
+			// still be contiguous from 0
+			length = len(idx)
 		}
 		for i := 0; i < length && i < 20000; i++ {
 			if !idx[uint32(i)] {
